@@ -9,20 +9,57 @@ from harness.props.c02 import settle_model
 RULE = ("trees / single files as in C02 through both hybrid creators (TorrentAssembler "
         "meta_version 3, TorrentFileHybrid); distinct by (pl, sorted per-file residues); "
         "non-trivial when some file needs padding (size % pl != 0) or single file with a "
-        "short last piece")
+        "short last piece; plus content paths given RELATIVE to the working directory (parent "
+        "directory, './', trailing '/', '.' and '..' from inside; library and command line) on trees "
+        "whose directories are named like the root, end with its name or with a dot")
 
 
-def run_case(run, drv, files, pl, single, tag):
+RELATIVE = ("rel", "dotrel", "trail", "dot", "rel-cli", "dot-cli", "up-from-inside")
+
+
+def relative_spelling(label, box, root, name, single, files):
+    """(working directory, relative path string, through the command line?) naming the payload."""
+    if single or label in ("rel", "rel-cli"):
+        return box, name, label.endswith("-cli") and not name.startswith("-")
+    if label == "up-from-inside":
+        sub = next((rel.split("/")[:-1] for rel, _ in files if "/" in rel), None)
+        if sub:
+            return os.path.join(root, *sub), "/".join([".."] * len(sub)), False
+        label = "dot"
+    return {"dotrel": (box, "./" + name, False), "trail": (box, name + "/", False),
+            "dot": (root, ".", False), "dot-cli": (root, ".", True)}[label]
+
+
+def run_case(run, drv, files, pl, single, tag, relative=None):
+    """`relative`: the content path is given relative to the working directory (one of RELATIVE),
+    as a user in the parent directory (or inside the payload) would type it."""
     case = {"links": cr.links(files),
             "files": [(rel, b.token()) for rel, b in files], "pl": pl, "single": single,
             "gen": tag}
+    if relative:
+        case["relative"] = relative
+    old_cwd = os.getcwd()
     with sandbox("c03") as box:
         root, name = cr.materialize(box, files, single)
         for kind in ("a3", "hy"):
             out = os.path.join(box, kind + ".torrent")
             try:
                 spelled, prog = cr.variant(run.rng, root, single)
-                raw = impl.create(kind, spelled, out, piece_length=pl, progress=prog)
+                if relative:
+                    wd, spelled, via_cli = relative_spelling(relative, box, root, name, single, files)
+                    os.chdir(wd)
+                    try:
+                        if via_cli and kind == "a3":
+                            impl.cli(["create", "--meta-version", "3", "--piece-length", str(pl), "--prog", "0",
+                                      "-o", out, spelled])
+                            with open(out, "rb") as fd:
+                                raw = fd.read()
+                        else:
+                            raw = impl.create(kind, spelled, out, piece_length=pl, progress=prog)
+                    finally:
+                        os.chdir(old_cwd)
+                else:
+                    raw = impl.create(kind, spelled, out, piece_length=pl, progress=prog)
             except Exception as exc:
                 run.fail("impl-vs-spec", dict(case, creator=kind), {"raised": repr(exc)})
                 continue
@@ -37,8 +74,40 @@ def run_case(run, drv, files, pl, single, tag):
         if len(blob):
             path = root if single else os.path.join(root, *rel.split("/"))
             cr.ask_hashers(drv, blob, pl, (case, rel, cr.run_hashers(path, pl), blob, pl))
-    run.case(cr.shape(files, pl) + [single], any(len(b) % pl for _, b in files), sample=case,
-             classes=[f"files={len(files)}", f"pl={pl}", "single" if single else "dir"])
+    run.case(cr.shape(files, pl) + [single] + ([relative, sorted(r for r, _ in files)] if relative else []),
+             any(len(b) % pl for _, b in files), sample=case,
+             classes=[f"files={len(files)}", f"pl={pl}", "single" if single else "dir"]
+             + (["relative-path", "relative:" + relative] if relative else []))
+
+
+def named_like_root(pl):
+    """Fixed trees in which directories (and files) are named like the content root itself
+    ('payload'), end with its name or contain it, or end with a dot (root spelled '.')."""
+    from harness.common import Blob
+    from harness import gen
+    R = Blob.rand
+    return [
+        gen.FileList([("payload/inner", R(71, pl + 1)), ("top", R(72, 5))]),
+        gen.FileList([("Live payload/intro", R(73, 300)), ("payload/payload/x", R(74, pl)), ("zz", R(75, pl - 1))]),
+        gen.FileList([("my-payload/ref", R(76, 2 * pl + 5)), ("d/payload/y", R(77, 1)), ("payload", R(78, 7))]),
+        gen.FileList([("a./x", R(79, pl + 5)), ("a./b./y", R(80, 3)), ("dots../z", R(81, 16385)), (".hid/w", R(82, 2))]),
+        gen.FileList([("xpayload/payload/y", R(83, 20000)), ("payload.bak", R(84, 1)), ("payload /s", R(85, pl))]),
+    ]
+
+
+def with_root_like_names(rng, files):
+    """Add entries named like / ending with the name of the root to a random tree."""
+    from harness.common import Blob
+    from harness import gen
+    out = gen.FileList(files)
+    out.emptydirs = tuple(getattr(files, "emptydirs", ()))
+    taken = lambda rel: any(r == rel or r.startswith(rel + "/") or rel.startswith(r + "/") for r, _ in out) or \
+        any(d == rel or d.startswith(rel + "/") or rel.startswith(d + "/") for d in out.emptydirs)  # noqa: E731
+    for rel in rng.sample(["payload/inner.txt", "my payload/ref.html", "d/payload/x", "payload/payload/z",
+                           "end./dot", "xpayload/payload/y", "Live payload/t"], rng.randrange(1, 4)):
+        if not taken(rel):
+            out.append((rel, Blob.rand(rng.randrange(1, 30), rng.choice([0, 3, 20000, 16384, 40000]))))
+    return out
 
 
 def run(tier, seed, replay=None):
@@ -48,13 +117,13 @@ def run(tier, seed, replay=None):
     def still_fails(c):
         probe = Run("C03", tier, seed, RULE)
         files = cr.files_of_case(c)
-        run_case(probe, Driver(), files, c["pl"], c["single"], "shrink")
+        run_case(probe, Driver(), files, c["pl"], c["single"], "shrink", relative=c.get("relative"))
         return any(f.kind == "impl-vs-spec" for f in probe.failures)
     run.shrinker = still_fails
     if replay:
         c = replay["case"]
         files = cr.files_of_case(c)
-        run_case(run, drv, files, c["pl"], c["single"], "replay")
+        run_case(run, drv, files, c["pl"], c["single"], "replay", relative=c.get("relative"))
     else:
         from harness.common import corpus_cases
         for c in corpus_cases("C03"):
@@ -62,8 +131,22 @@ def run(tier, seed, replay=None):
             run_case(run, drv, files, c["pl"], c["single"], "corpus")
         for files, pl, single in cr.corner_cases():
             run_case(run, drv, files, pl, single, "corner")
-        for _ in range(80 if tier == "quick" else 800):
+        # relative content paths (library and command line), trees with entries named like the root
+        for pl in (16384, 32768):
+            for n, files in enumerate(named_like_root(pl)):
+                for k, relative in enumerate(RELATIVE):
+                    if pl == 16384 or (n + k) % 3 == 0:
+                        run_case(run, drv, files, pl, False, "named-like-root", relative=relative)
+            run_case(run, drv, named_like_root(pl)[1], pl, False, "named-like-root")
+        import random
+        for i in range(80 if tier == "quick" else 800):
             files, pl, single = cr.make_case(run.rng, tier, single_p=0.3)
             run_case(run, drv, files, pl, single, "random")
+            # (own generator: the stream of the cases above stays what it was)
+            rng2 = random.Random(f"{seed}/relative/{i}")
+            if rng2.random() < 0.3:
+                if not single and rng2.random() < 0.6:
+                    files = with_root_like_names(rng2, files)
+                run_case(run, drv, files, pl, single, "random-relative", relative=rng2.choice(RELATIVE))
     settle_model(run, drv)
     return run.finish()
